@@ -53,6 +53,7 @@ def run(ctx: Ctx):
     r13_4(ctx)
     r13_5(ctx)
     r13_6(ctx)
+    r13_7(ctx)
 
 
 # ---------------------------------------------------------------------------
@@ -1222,3 +1223,33 @@ def r13_6(ctx: Ctx, rule: str = "R13.6"):
     okg = bool(rets) and all(norm(r_.value) in ("self._comment", "self.DEFAULT_COMMENT") for r_ in rets)
     ctx.ob(rule, gt, "title getter returns %s" % [norm(r_.value) for r_ in rets], okg,
            "the title handed out is the stored one (the default only when none was set)", node=gt.node)
+
+
+# ---------------------------------------------------------------------------
+# R13.7 the record is written as formatted (no text substitution afterwards)
+# ---------------------------------------------------------------------------
+_SUBST = {"replace", "sub", "subn", "translate", "strip", "lstrip", "rstrip", "lower", "upper", "removeprefix", "removesuffix"}
+
+
+def postformat_sites(fn: ast.AST):
+    """calls that rewrite text in a function that formats numbers: str.replace / re.sub / translate / strip..."""
+    if not any(isinstance(c_, ast.Call) and call_name(c_) == "format" for c_ in ast.walk(fn)) and \
+            not any(isinstance(x_, ast.JoinedStr) for x_ in ast.walk(fn)):
+        return []
+    return [c_ for c_ in ast.walk(fn) if isinstance(c_, ast.Call) and isinstance(c_.func, ast.Attribute) and c_.func.attr in _SUBST]
+
+
+def r13_7(ctx: Ctx, rule: str = "R13.7"):
+    """The digits and signs of a written record are exactly what the format specification produces.  A textual
+    substitution applied to the formatted line (a 'tidy-up' of negative zeros, stripped blanks ...) cannot tell a
+    position field from a velocity field of another precision, nor a sign from a separator: it silently changes values."""
+    w = ctx.func("GroFile.parse_atomlist")
+    hits = postformat_sites(w.node)
+    for c_ in hits:
+        ctx.ob(rule, w, c_, False, "the record is returned as formatted -- `%s` rewrites the text after formatting (a pattern such as "
+               "'-0.000' also occurs inside a velocity '-0.0004', whose sign is then lost)" % norm(c_)[:70], node=c_)
+    if not hits:
+        ctx.ob(rule, w, "text substitutions after formatting: 0", True, "the record is returned exactly as the format specification "
+               "produces it", node=w.node)
+    from ..fixtures import check_fixture
+    check_fixture(ctx, rule, "postformat.py", lambda repo: sum(len(postformat_sites(f_.node)) for f_ in repo.funcs.values()), expect_exact=2)
